@@ -159,9 +159,9 @@ Fixpoint pm_last_service (l : list pm_obj) : option pm_obj :=
       end
   end.
 
-(* THE ONE PLACE that says the permission frame is shared by all evaluations of a GetFilterTargets call.
-   With repo_patches/C18-fresh-permission-frame.diff applied this becomes [None] (and pm_frame_sv_in / _none /
-   _nil in PmProofs.v become trivial). *)
+(* the frame's `service` after the targets [l] were evaluated in one namespace (EvaluateFilter never removes a
+   binding).  Since the fix of F-C18-a the namespace is replaced at the start of every by-name type iteration and
+   before the filter phase, so [l] only ever holds targets of one type. *)
 Definition pm_frame_sv (l : list pm_obj) : option pm_obj := pm_last_service l.
 
 (* ---------------------------------------------------------------- HasPermission / CheckPermission *)
@@ -225,13 +225,14 @@ Definition pm_q_single (q : pm_query) (t : pm_type) : option pm_str :=
 Definition pm_q_plural (q : pm_query) (t : pm_type) : option (list pm_str) :=
   match t with PmHost => pq_hosts q | PmService => pq_services q end.
 
-(* GetTargetByName + EvaluateFilter(permissionFilter) + throw "Access denied" *)
+(* GetTargetByName + EvaluateFilter(permissionFilter) + throw "Access denied".
+   [fr] = the targets already evaluated in the CURRENT namespace of the permission frame. *)
 Definition pm_name_one (pf : option pm_filter) (inv : list pm_obj) (t : pm_type) (n : pm_str)
-           (acc : list pm_obj) : pm_err + pm_obj :=
+           (fr : list pm_obj) : pm_err + pm_obj :=
   match pm_lookup inv t n with
   | None => inl PmErrNoObj
   | Some o =>
-      match pm_eval_opt pf (pm_frame_sv acc) o with
+      match pm_eval_opt pf (pm_frame_sv fr) o with
       | PmT => inr o
       | PmF => inl PmErrDenied
       | PmE => inl PmErrScript
@@ -239,28 +240,29 @@ Definition pm_name_one (pf : option pm_filter) (inv : list pm_obj) (t : pm_type)
   end.
 
 Fixpoint pm_name_list (pf : option pm_filter) (inv : list pm_obj) (t : pm_type) (ns : list pm_str)
-         (acc : list pm_obj) : pm_err + list pm_obj :=
+         (acc fr : list pm_obj) : pm_err + list pm_obj :=
   match ns with
   | [] => inr acc
   | n :: r =>
-      match pm_name_one pf inv t n acc with
+      match pm_name_one pf inv t n fr with
       | inl e => inl e
-      | inr o => pm_name_list pf inv t r (acc ++ [o])
+      | inr o => pm_name_list pf inv t r (acc ++ [o]) (fr ++ [o])
       end
   end.
 
-(* one iteration of `for (const String& type : qd.Types)` *)
+(* one iteration of `for (const String& type : qd.Types)`: it starts with
+   `permissionFrame.Self = new Namespace()` (fix 053695b), i.e. with an empty [fr] *)
 Definition pm_names_type (pf : option pm_filter) (inv : list pm_obj) (q : pm_query) (t : pm_type)
            (acc : list pm_obj) : pm_err + list pm_obj :=
   match (match pm_q_single q t with
-         | None => inr acc
-         | Some n => match pm_name_one pf inv t n acc with inl e => inl e | inr o => inr (acc ++ [o]) end
+         | None => inr (acc, [])
+         | Some n => match pm_name_one pf inv t n [] with inl e => inl e | inr o => inr (acc ++ [o], [o]) end
          end) with
   | inl e => inl e
-  | inr acc1 =>
+  | inr (acc1, fr1) =>
       match pm_q_plural q t with
       | None => inr acc1
-      | Some ns => pm_name_list pf inv t ns acc1
+      | Some ns => pm_name_list pf inv t ns acc1 fr1
       end
   end.
 
@@ -362,13 +364,19 @@ Fixpoint pm_scan (pf : option pm_filter) (sv : option pm_obj) (uf : option pm_fi
       else pm_scan pf sv uf fv t r
   end.
 
+(* fix 06579d2: filter_vars named obj / host / service are overwritten by EvaluateFilter with the target, so
+   they are no constants and the fast path is skipped (variableName is empty for the config-object handlers) *)
+Definition pm_shadowed (fv : list (pm_str * pm_str)) : bool :=
+  existsb (fun kv => pm_str_eqb (fst kv) [111;98;106] || pm_str_eqb (fst kv) [104;111;115;116]
+                     || pm_str_eqb (fst kv) [115;101;114;118;105;99;101]) fv.
+
 (* the user filter runs in its own frame, which only ever sees objects of the one type [t] *)
 Definition pm_by_filter (fast : bool) (pf : option pm_filter) (sv : option pm_obj) (inv : list pm_obj) (t : pm_type)
            (uf : option pm_filter) (fv : list (pm_str * pm_str)) : pm_err + list pm_obj :=
   match uf with
   | None => pm_scan pf sv None fv t inv
   | Some f =>
-      match (if fast then pm_targets t f fv else None) with
+      match (if fast && negb (pm_shadowed fv) then pm_targets t f fv else None) with
       | Some ns => pm_fast_collect pf sv inv t ns
       | None => pm_scan pf sv (Some f) fv t inv
       end
@@ -403,7 +411,7 @@ Definition pm_filter_targets (fast : bool) (u : list pm_entry) (perm : pm_str) (
                 match pm_qtype_in tys qt with
                 | None => (c1, PmErr PmErrTypeNotInQd)
                 | Some t =>
-                    (true, match pm_by_filter fast pf (pm_frame_sv res) inv t (pq_filter q) (pq_fvars q) with
+                    (true, match pm_by_filter fast pf (pm_frame_sv []) inv t (pq_filter q) (pq_fvars q) with
                            | inl e => PmErr e
                            | inr l => PmOk (res ++ l)
                            end)
@@ -436,16 +444,6 @@ Definition pm_spec_allow_sv (u : list pm_entry) (perm : pm_str) (sv : option pm_
   existsb (pm_entry_allows perm sv o) u.
 Definition pm_spec_allow (u : list pm_entry) (perm : pm_str) (o : pm_obj) : bool :=
   pm_spec_allow_sv u perm None o.
-(* tolerant reading used to CLASSIFY the known finding stale-service-variable: the filter is true with `service`
-   bound to some service of the inventory *)
-Definition pm_spec_allow_any (u : list pm_entry) (perm : pm_str) (inv : list pm_obj) (o : pm_obj) : bool :=
-  existsb (fun sv => pm_spec_allow_sv u perm sv o) (None :: map Some (filter pm_is_service inv)).
-
-(* signature of the finding: a QueryDescription over hosts AND services (the actions) and a service addressed
-   by name - only then can a host be evaluated in a frame that still holds a service *)
-Definition pm_sig_stale (tys : list pm_type) (q : pm_query) : bool :=
-  existsb (pm_type_eqb PmHost) tys && existsb (pm_type_eqb PmService) tys
-  && (pm_is_some (pq_service q) || match pq_services q with Some (_ :: _) => true | _ => false end).
 Definition pm_spec_has (u : list pm_entry) (perm : pm_str) : bool :=
   match perm with
   | [] => true
